@@ -86,14 +86,22 @@ def check(acc, node, env, origin):
         errs = class_errors(out[1], t)
         acc.cell(origin, r, "api", root, static_class(t), "ok" if not errs else "wrong-class")
         if errs:
-            def bad(x, r=r):
-                if not is_value(x, env):
+            def bad(x, extra, r=r):
+                env2 = dict(env, **extra) if extra else env
+                if not is_value(x, env2):
                     return False
-                o = core.api_eval(r, lang.to_text(x), benv)
+                o = core.api_eval(r, lang.to_text(x), dict(benv, **MV.cel_env(extra)) if extra else benv)
                 return o[0] == "V" and bool(class_errors(o[1], x.t))
 
-            m = diag.localize(node, bad)
-            mo = core.api_eval(r, lang.to_text(m), benv)
+            def elements(recv, extra):
+                try:
+                    v = lang.Model(dict(env, **extra) if extra else env).ev(recv)
+                except (lang.ModelErr, lang.Unspec):
+                    return None
+                return list(v[1])[:2] if v[0] == "list" else ([kv[0] for kv in v[1]][:2] if v[0] == "map" else None)
+
+            m, ex_b = diag.localize_scoped(node, bad, elements)
+            mo = core.api_eval(r, lang.to_text(m), dict(benv, **MV.cel_env(ex_b)) if ex_b else benv)
             me = class_errors(mo[1], m.t) if mo[0] == "V" else []
             if not me:
                 m, me = node, errs
@@ -115,14 +123,22 @@ def check(acc, node, env, origin):
         got = [x[1] for x in o2[1][1]] if o2[0] == "V" and o2[1][0] in ("ListType", "list") else None
         acc.cell(origin, r, "type()", root, want, "ok" if got == exp_list else "wrong")
         if got != exp_list:
-            def bad2(x, r=r):
-                if not is_value(x, env):
+            def bad2(x, extra, r=r):
+                env2 = dict(env, **extra) if extra else env
+                if not is_value(x, env2):
                     return False
-                o = core.api_eval(r, f"type({lang.to_text(x)}) == {static_class(x.t)}", benv)
+                o = core.api_eval(r, f"type({lang.to_text(x)}) == {static_class(x.t)}", dict(benv, **MV.cel_env(extra)) if extra else benv)
                 return not (o[0] == "V" and o[1][1] is True)
 
-            m = diag.localize(node, bad2)
-            if not bad2(m):
+            def elements2(recv, extra):
+                try:
+                    v = lang.Model(dict(env, **extra) if extra else env).ev(recv)
+                except (lang.ModelErr, lang.Unspec):
+                    return None
+                return list(v[1])[:2] if v[0] == "list" else ([kv[0] for kv in v[1]][:2] if v[0] == "map" else None)
+
+            m, ex_b = diag.localize_scoped(node, bad2, elements2)
+            if not bad2(m, ex_b):
                 m = node
             which = "matching-name-false" if got and not got[0] else ("other-name-true" if got else diag.oclass(o2).split("@")[0])
             slug = f"{r} type() {diag.shape(m, lambda x: static_class(x.t))} {which}"
